@@ -94,6 +94,8 @@ type Obligation struct {
 	Expect  string // "unsat" normally; "sat" for covers/canaries
 	Extra   []string // extra get-value terms
 	Hints   []T      // instances of quantified hypotheses at the goal's terms
+	KnownID string   // listed as a known finding: a short solver budget suffices (re-derivation is by replay when no model comes back)
+	Witness T        // known finding: extra hypothesis under which a counterexample is searched first
 }
 
 type VC struct {
@@ -109,6 +111,7 @@ type VC struct {
 	heapSort map[string]string // heap name -> element sort (heap is Array Int elem) or full sort for ghosts
 	heapElem map[string]types.Type
 	heapRows map[string]bool
+	heapMapKey map[string]string // map-value heaps: SMT sort of the key
 	ghost    map[string]bool
 	counters map[string]int
 	assumes  map[string]bool // assumptions used (for the evidence)
@@ -600,6 +603,14 @@ func (vc *VC) ensureHeap(name, elemSort string, elem types.Type, rows bool) {
 func (vc *VC) heapWF(c, heap, front string) {
 	elem := vc.heapElem[heap]
 	if elem == nil {
+		return
+	}
+	if ks, ok := vc.heapMapKey[heap]; ok {
+		x := "(select (select " + c + " wf_p) wf_k)"
+		f := vc.typeFacts(x, elem, front, 0)
+		if f != tTrue {
+			vc.assume("(forall ((wf_p Int) (wf_k " + ks + ")) (! " + f + " :pattern (" + x + ")))")
+		}
 		return
 	}
 	if vc.heapRows[heap] {
